@@ -102,7 +102,7 @@ def resolve_default(d, pos):
     if tag == "bool":
         return v
     if tag == "str":
-        return v if v in ("", "3", "a.b", QUOTE_EDGE_STR) else ("%s_%s" % (v, NAMES[pos])).replace("two words_", "two words ")
+        return v if v in ("", "3", "a.b", "None", QUOTE_EDGE_STR) else ("%s_%s" % (v, NAMES[pos])).replace("two words_", "two words ")
     if tag in ("strlit", "intlit"):
         return v
     if tag == "code":
@@ -123,12 +123,14 @@ def default_kind(d):
         return "float<0" if v < 0 else ("float_exp" if v == 1e-07 else ("float_like_bool" if v in (0.0, 1.0) else "float"))
     if tag == "str" and v == QUOTE_EDGE_STR:
         return "str_quote_edges"
+    if tag == "str" and v == "None":
+        return "str_None"
     if tag == "str":
         return {"": "str_empty", "two words": "str_space", "3": "str_digit", "a.b": "str_dot"}.get(v, "str")
     if tag == "code":
         return "code_dotted" if "np." in v else ("code_empty" if v == "[]" else "code")
     if tag == "strlit" and v != "x":
-        return {"": "strlit_empty", "1": "strlit_digit"}[v]
+        return {"": "strlit_empty", "1": "strlit_digit", "None": "strlit_None", "x[": "strlit_bracket"}[v]
     if tag == "intlit" and v != 1:
         return "intlit0" if v == 0 else "intlit<0"
     return tag
@@ -252,6 +254,7 @@ A_CHAIN = A_RED + [
     ("Optional[int]", ("int", 0), "the {n}"),
     ("bool", ("bool", False), "the {n}"),
     ("Optional[str]", ("str", "3"), "the {n}"),
+    ("Optional[Union[int, str]]", ("str", "3"), "the {n}"),
 ]
 
 
@@ -272,6 +275,10 @@ A_COLL = [
     ("Optional[str]", ("str", "3"), "the {n}"),
     ("int", ABSENT, ABSENT),
     ("Literal[-1, 0, 1]", ("intlit", -1), "the {n}"),
+    ("str", ("str", "None"), "the {n}"),
+    ("Literal['None', 'x']", ("strlit", "None"), "the {n}"),
+    ("Literal['x[', 'y[']", ("strlit", "x["), "the {n}"),
+    ("Optional[Union[int, str]]", ("str", "3"), "the {n}"),
 ]
 
 
@@ -310,6 +317,12 @@ def S_W():
         cases.append({"atoms": [A_RED[0]], "ret": ("int", words(n, "r"), ABSENT), "kwargs": False, "summary": 0})
     for n in range(80, 111):
         cases.append({"atoms": [A_RED[0]], "ret": None, "kwargs": False, "summary": "First line of the summary\n" + words(n, "s")})
+    members = ["int", "float", "complex", "str", "bytes", "bool", "bytearray", "memoryview", "range", "slice", "object", "frozenset",
+               "Exception", "BaseException", "NotImplementedError"]
+    for k in range(9, len(members) + 1):  # a type of 72..140 characters: its :type line wraps
+        t = "Union[%s]" % ", ".join(members[:k])
+        cases.append({"atoms": [(t, ("int", 5), "the {n}"), second], "ret": None, "kwargs": False, "summary": 0})
+        cases.append({"atoms": [A_RED[0]], "ret": (t, "the result", ABSENT), "kwargs": False, "summary": 0})
     qa = ("str", ("str", QUOTE_EDGE_STR), QUOTE_EDGE_PROSE)
     cases.append({"atoms": [qa], "ret": None, "kwargs": False, "summary": QUOTE_EDGE_SUMMARY})
     cases.append({"atoms": [A_RED[0], qa], "ret": RETURNS[4], "kwargs": False, "summary": 0})
